@@ -10,7 +10,7 @@ def sig(o):
     exp_missing = []
     kinds = sorted({("inc" if r["inc"] else "exc") for r in o["rules"]})
     res = o["result"]
-    return {"kind": "crash" if res == "crashed" else "hang" if res == "hung" else ("error" if res != "ok" else "selection"),
+    return {"kind": "crash" if res == "crashed" else "hang" if res == "hung" else ("error" if res != "ok" else "selection"), "dir_rule": any(r.get("dir") for r in o["rules"]),
             "arr": o["arr"], "rule_kinds": kinds, "wild": o["wild"]}
 
 
@@ -43,7 +43,7 @@ def check(w):
         "exhaustive": True,
         "samples": [{"rules": o["rules"], "arr": o["arr"], "flags": o["flags"], "final": [n["p"] for n in o["final"]], "result": o["result"]} for o in obs if len(o["rules"]) == 2][:3],
         "rule_lists": len(scen), "evaluations": len(obs), "distinct_nontrivial": nontriv,
-        "rule": "every list of 0..%d plain-name rules (+/- a, b, d, e; given as --exclude/--include or -f) on a tree with those names as files and directories at depths 1..3, "
+        "rule": "every list of 0..%d plain-name rules (+/- a, b, d, e, and the directory spellings d/, e/; given as --exclude/--include or -f) on a tree with those names as files and directories at depths 1..3, "
                 "in pull, push, local and library (pull and push, transcript recorded) arrangement with the real code on both ends; non-trivial = at least one rule" % (2 if quick else 3),
         "action_coverage": cov, "negative_controls": nneg, "worker_crashes": counts.get("crashed", 0),
     }
